@@ -480,7 +480,31 @@ func Mutate(r *rng.R, t *T, c Cfg) *T {
 			}
 		}
 	case Obj:
-		switch r.Intn(5) {
+		switch r.Intn(6) {
+		case 5: // move an optional flag to another attribute: the same number of optional attributes, other names
+			var non []string
+			for _, a := range p.Attrs {
+				isOpt := false
+				for _, o := range p.Opt {
+					if o == a.Name {
+						isOpt = true
+					}
+				}
+				if !isOpt {
+					non = append(non, a.Name)
+				}
+			}
+			if len(p.Opt) > 0 && len(non) > 0 {
+				no := append([]string{}, p.Opt...)
+				no[r.Intn(len(no))] = non[r.Intn(len(non))]
+				sort.Strings(no)
+				p.Opt = no
+			} else if len(p.Attrs) >= 2 {
+				p.Opt = []string{p.Attrs[r.Intn(len(p.Attrs))].Name}
+			} else {
+				p.Attrs = []Attr{{"a", P(Str)}, {"b", P(Str)}}
+				p.Opt = []string{"b"}
+			}
 		case 0: // toggle an optional flag
 			if len(p.Attrs) > 0 {
 				k := p.Attrs[r.Intn(len(p.Attrs))].Name
@@ -589,6 +613,45 @@ func Mutate(r *rng.R, t *T, c Cfg) *T {
 			}
 			*p = *P(k)
 		}
+	}
+	return m
+}
+
+// MoveOpt returns a copy of t in which one object type (with at least two attributes) has the same number
+// of optional attributes under other names, or nil when t has no such object type.
+func MoveOpt(r *rng.R, t *T) *T {
+	m := t.Clone()
+	var objs []*T
+	for _, p := range Positions(m) {
+		if p.K == Obj && len(p.Attrs) >= 2 {
+			objs = append(objs, p)
+		}
+	}
+	if len(objs) == 0 {
+		return nil
+	}
+	p := objs[r.Intn(len(objs))]
+	isOpt := map[string]bool{}
+	for _, o := range p.Opt {
+		isOpt[o] = true
+	}
+	var non []string
+	for _, a := range p.Attrs {
+		if !isOpt[a.Name] {
+			non = append(non, a.Name)
+		}
+	}
+	switch {
+	case len(p.Opt) > 0 && len(non) > 0:
+		no := append([]string{}, p.Opt...)
+		no[r.Intn(len(no))] = non[r.Intn(len(non))]
+		sort.Strings(no)
+		p.Opt = no
+	case len(p.Opt) == 0:
+		// none optional yet: make one optional here (the partner type gets another one)
+		p.Opt = []string{p.Attrs[r.Intn(len(p.Attrs))].Name}
+	default:
+		return nil // every attribute optional: nothing to move
 	}
 	return m
 }
